@@ -39,12 +39,15 @@ def parse_edges(out, arg_filter):
     return first_src, graph, n
 
 
-def edge_cover(init, graph, max_len=300):
+def edge_cover(init, graph, max_len=300, max_ops=None):
     """Greedy edge-covering set of walks from init.  Returns list of op lists."""
     uncovered = {s: set(graph[s].keys()) for s in graph}
     remaining = sum(len(v) for v in uncovered.values())
     walks = []
+    total = 0
     while remaining > 0:
+        if max_ops is not None and total >= max_ops:
+            break
         walk = []
         cur = init
         while len(walk) < max_len:
@@ -85,4 +88,5 @@ def edge_cover(init, graph, max_len=300):
         if not walk:
             break
         walks.append(walk)
-    return walks
+        total += len(walk)
+    return walks, remaining
